@@ -115,3 +115,63 @@ def dominators(f):
                 dom[b] = new
                 changed = True
     return dom, reach
+
+
+def _places_in(x, out):
+    if isinstance(x, dict):
+        if 'l' in x and 'p' in x and isinstance(x['p'], list):
+            out.append(x)
+        for v in x.values():
+            _places_in(v, out)
+    elif isinstance(x, list):
+        for v in x:
+            _places_in(v, out)
+
+
+def all_places(f):
+    """every place mentioned in the non-cleanup blocks of a function"""
+    out = []
+    for b in f['blocks']:
+        if b.get('cleanup'):
+            continue
+        _places_in(b['s'], out)
+        if b['t']:
+            _places_in(b['t'], out)
+    return out
+
+
+def raw_deref_sites(f):
+    """number of raw-pointer dereferences (projection Deref on a raw pointer) in a function; each MIR place counts once"""
+    n = 0
+    seen = set()
+    for pl in all_places(f):
+        for i, e in enumerate(pl['p']):
+            if e.get('k') == 'deref' and e.get('raw'):
+                key = (pl['l'], i, id(pl))
+                n += 1
+    return n
+
+
+def call_graph(facts):
+    """caller -> set of resolved callee names (or trait-method names when unresolved)"""
+    g = {}
+    for f in facts['fns']:
+        s = g.setdefault(f['name'], set())
+        for bi, c, target, loc in callees(f):
+            s.add(target or c['name'])
+    return g
+
+
+def reaches(g, start, pred):
+    seen = set()
+    work = [start]
+    while work:
+        x = work.pop()
+        if x in seen:
+            continue
+        seen.add(x)
+        for y in g.get(x, ()):
+            if pred(y):
+                return True
+            work.append(y)
+    return False
